@@ -178,10 +178,10 @@ class StrTable:
         self.t: Dict[str, str] = {}
 
     def tok(self, s: str) -> str:
-        """Plain alphabetic words travel as they are (so that the model's own literals such
-        as the default "both" compare equal); anything else gets an id `x<n>` (ids contain a
-        digit, words do not)."""
-        if s.isascii() and s.isalpha():
+        """Plain words of ASCII letters and underscores travel as they are (so that the model's
+        own literals — the regenerated defaults such as "both", "final_state" — compare equal);
+        anything else gets an id `x<n>` (ids contain a digit, words do not)."""
+        if s.isascii() and s.replace("_", "").isalpha():
             return s
         if s not in self.t:
             self.t[s] = f"x{len(self.t)}"
